@@ -1,12 +1,13 @@
 #!/bin/bash
-# tools/reconfirm_parallel.sh - every stored seeded change against the current harness, four property groups in
+# tools/reconfirm_parallel.sh - every stored seeded change against the current harness, five property groups in
 # parallel (checks of different properties do not share files). Logs: .scratch/reconfirm_g<k>.log
 cd /verif
 ./build.sh > /dev/null 2>&1
 k=0
-for grp in "C01 C02 C03 C04 C05" "C06 C07 C08 C09 C10" "C11 C12 C13 C14 C15" "C16 C17 C18 C19 C20"; do
+for grp in "C01 C02 C03 C04" "C05 C06 C07 C08" "C09 C10 C11 C12" "C13 C14 C15 C16" "C17 C18 C19 C20"; do
   k=$((k+1))
   ids=""
   for p in $grp; do ids="$ids $(ls seeded | grep "^$p-")"; done
   (RECONFIRM_FAST=1 tools/reconfirm_all.sh $ids > .scratch/reconfirm_g$k.log 2>&1 &)
 done
+echo started
